@@ -3,6 +3,8 @@ from __future__ import annotations
 
 from hypothesis import strategies as st
 
+from ..gen import prob
+
 from .. import gen
 from ..core import Violation
 from ..observe import AsyncRecorder, Recorder
@@ -66,6 +68,15 @@ def _one_shot(reg, runner_kind, when):
 def _case(draw, tier):
     c = draw(gen.rich_case(tier))
     c["one_shot_first"] = draw(st.sampled_from([None, None, None, "shutdown", "run_end"]))
+    # the cache backend's k-th lookup raises
+    c["cache_get_fails"] = draw(st.integers(0, 3)) if prob(draw, 0.12) else None
+    # a second observer that raises ONCE, at its k-th event (a transient sink fault), registered before or after the recorder:
+    # what IT is given must be a complete tree too, and its shutdown runs once
+    c["flaky_at"] = draw(st.integers(0, 30)) if prob(draw, 0.3) else None
+    c["flaky_first"] = draw(st.booleans())
+    # an unbounded async map over more items than the runner accepts without a limit: a rejected call
+    if c["method"] in ("map", "mapnode") and c["runner"] != "sync" and prob(draw, 0.1):
+        c.update({"huge_map": True, "mc": None, "nitems": 10001, "runs": 1, "omit_required": False, "bad_on_missing": False})
     return c
 
 
@@ -77,10 +88,37 @@ def check_case(case, ev):
     from hypergraph.events.types import NodeErrorEvent, NodeStartEvent, RunStartEvent
 
     recs = []
+    flakies = []
+
+    def _flaky(runner_kind, k):
+        base = Recorder if runner_kind == "sync" else AsyncRecorder
+
+        class Flaky(base):
+            n = 0
+
+            def _tick(self):
+                self.n += 1
+                if self.n - 1 == k:
+                    raise RuntimeError(f"transient sink fault at event {k}")
+
+            def on_event(self, event):
+                self.events.append(event)
+                self._tick()
+
+            async def on_event_async(self, event):
+                self.events.append(event)
+                self._tick()
+
+        return Flaky()
 
     def factory(i, runner_kind):
         r = Recorder() if runner_kind == "sync" else AsyncRecorder()
         recs.append(r)
+        if case.get("flaky_at") is not None:
+            f = _flaky(runner_kind, case["flaky_at"])
+            flakies.append(f)
+            return [f, r] if case.get("flaky_first") else [r, f]
+        flakies.append(None)
         if case.get("one_shot_first"):
             # a one-shot observer registered BEFORE the recorder that takes itself out of the caller's list when it is shut down
             # (or when it sees the first RunEnd): the recorder behind it must still get every event and exactly one shutdown
@@ -116,12 +154,30 @@ def check_case(case, ev):
             if rec.events or rec.shutdowns or call.ctx_log:
                 raise Violation("c12.rejected_call_emitted", f"[{tag}] rejected with {type(call.outcome.error).__name__} but {len(rec.events)} events / {rec.shutdowns} shutdowns / {len(call.ctx_log)} node invocations happened", why="bad_on_missing")
             continue
+        if case.get("huge_map") and call.kind == "map" and call.outcome.status == "raised" and "Too many map tasks" in str(call.outcome.error):
+            labels.add("rejected_call:too_many_map_tasks")
+            if rec.events or rec.shutdowns or call.ctx_log:
+                raise Violation("c12.rejected_call_emitted", f"[{tag}] the map over 10001 items without a limit was rejected with ValueError but {len(rec.events)} events / {rec.shutdowns} shutdowns were delivered "
+                                f"({[type(e).__name__ for e in rec.events[:4]]})", why="too_many_map_tasks")
+            continue
         if call.rejected and not rec.events and not rec.shutdowns:
             labels.add("rejected_call")  # validation refused the top-level call before anything was emitted
             continue
         if call.paused:
             continue
         check_span_tree(rec.events, rec.shutdowns, tag, observed_failed=call.observed_failed, result_status_by_run=call.status_by_run, wrapper_graph=wrapper_graph)
+        fl = flakies[i] if i < len(flakies) else None
+        if fl is not None:
+            try:
+                check_span_tree(fl.events, fl.shutdowns, tag + f" [observer that raised once at its event {case['flaky_at']}]", observed_failed=call.observed_failed,
+                                result_status_by_run=call.status_by_run, wrapper_graph=wrapper_graph)
+            except Violation as v:
+                v.sig["flaky_observer"] = True
+                raise
+            if fl.n > case["flaky_at"]:
+                labels.add("observer_raised_once")
+        if case.get("cache_get_fails") is not None:
+            labels.add("cache_lookup_fault")
         nruns = sum(1 for e in rec.events if isinstance(e, RunStartEvent))
         depth2 = any(isinstance(e, RunStartEvent) and e.parent_span_id is not None for e in rec.events)
         # failing node with a concurrently open sibling span
